@@ -14,7 +14,7 @@ Suites
                          same graph; rdflib's XML and JSON outputs are well-formed.
   xmlout   (conformance) RDF/XML output well-formedness on and around the regions of findings C05j/C05k.
   join     (proof tie)   coq/Grammar/Resolve.v <-> notation3.join/_uri_split/_remove_dot_segments, directly and through @base;
-                         specification: RFC 3986 section 5.2 in Coq (finding C05q).
+                         specification: RFC 3986 section 5.2 in Coq.
   tstring  (proof tie)   coq/Grammar/TurtleStr.v <-> SinkParser.strconst/uEscape/UEscape, directly and through Graph.parse;
                          specification: the Turtle string productions [22]-[25].
   relref   (conformance) one relative IRI reference per Turtle/TriG document, every RFC 3986 kind x every kind of base x
@@ -51,7 +51,13 @@ TRUSTED = [
     "the transcription of RFC 3986 sections 5.2.1-5.2.4, 5.3 in coq/Grammar/Resolve.v Part S (checked on all 41 examples of "
     "RFC 3986 section 5.4 by Example C05_rfc3986_5_4_examples) and of the Turtle 1.1 string productions [22]-[25] in "
     "coq/Grammar/TurtleStr.v Part S",
-    "harness/c05.py: conversion of rdflib terms to code-point lists (str.__str__, ord) and the case generators",
+    "the equivalence between each Python regular expression (r_uriref, r_nodeid, r_literal/litinfo, r_tail, r_line, _uri_parts, "
+    "_turtle_escape_pattern, interesting, unicodeEscape4/8) under Python's backtracking matcher and the deterministic scanner that models "
+    "it: an argument in comments next to each scanner (no shorter match of a greedy class can be followed by the required delimiter), "
+    "not a theorem; the pattern sources are reflected and pinned, and the scanners are tied to the running code by the suites "
+    "ntread / join / tstring (this is where finding C05h came from)",
+    "harness/c05.py: conversion of rdflib terms to code-point lists (str.__str__, ord), the case generators, and the mapping of "
+    "rdflib's fresh blank nodes back to document labels through bnode_context",
     "harness/reflect_c05.py: reflection of _invalid_uri_chars, DATASET_DEFAULT_GRAPH_ID, the regular expressions of the line "
     "reader, of _uri_parts and of strconst, Python's \\s / str.isspace classes, strconst's escape letters (probed)",
     "for the conformance suites (spell, sources, xmlout, relref): the independent writers, the RFC 3986 resolver and the brute-force "
@@ -64,8 +70,7 @@ ASSUMPTIONS = [
     "a strict reader requires absolute IRIs (scheme ':'), as the W3C negative tests nt-syntax-bad-uri-06..09 do; relative IRIs in a "
     "graph are outside the property's graphs ('as in C03': IRI has a scheme)",
     "the store's iteration order is not modelled: documents are compared up to the order of their lines",
-    "each regular expression of the modelled Python is modelled by the deterministic scanner it amounts to (argument next to each "
-    "definition; the pattern sources are reflected and pinned); readline's 2048-character buffering is not modelled",
+    "readline's 2048-character buffering is not modelled",
     "join: the base has a scheme and at most one '#', and is hierarchical unless the reference is a same-document reference "
     "(join raises ValueError otherwise, documented behaviour); an absolute reference is returned as it is (RDF resolves relative "
     "references only)",
@@ -253,8 +258,17 @@ class NtOut(Suite):
         return obs["doc"] is not None and len(case["rows"]) > 0
 
     def features(self, case, obs):
+        import re as _re3
+
+        def rel(t):
+            return t[0] == "I" and not _re3.match(r"^[A-Za-z][A-Za-z0-9+.-]*:", t[1])
         f = {"nq" if case["nq"] else "nt": 1, "rows": len(case["rows"]), "doc_written": int(obs["doc"] is not None),
-             "row_raised": sum(1 for r in obs["rows"] if r is None)}
+             "row_raised": sum(1 for r in obs["rows"] if r is None),
+             # share of cases in which well-formedness (a guard of the checker) switches something off
+             "case_with_refused_row": int(any(r is None for r in obs["rows"])),
+             "case_with_relative_iri_row": int(any(rel(x) for row in case["rows"] for x in row[:3] + ([row[3]] if case["nq"] else []))),
+             "mixed_document_written": int(obs["doc"] is not None and any(
+                 rel(x) for row in case["rows"] for x in row[:3] + ([row[3]] if case["nq"] else [])))}
         for s, p, o, g in case["rows"]:
             f["obj_" + o[0] + ("" if o[0] != "L" else "_plain" if o[2] is None else "_" + o[2][0])] = \
                 f.get("obj_" + o[0] + ("" if o[0] != "L" else "_plain" if o[2] is None else "_" + o[2][0]), 0) + 1
@@ -2024,8 +2038,6 @@ class Join(Suite):
     model = "j_model"
     oeq = "jobs_eqb"
     spec = "j_spec_ok"
-    kf = "j_kf"
-    kf_ids = {17: "C05q"}
     corr = "notation3.join, _uri_split, _remove_dot_segments, splitFragP; SinkParser.uri_ref2 / directive (@base)"
     quick_n = 400
     thorough_n = 8000
